@@ -135,6 +135,7 @@ fn main() {
             for ((pi, _), ch) in batch.iter().zip(results) {
                 let rep = &parents[*pi];
                 let cfg = &cfgs[rep.cfg];
+                done_work += 1;
                 {
                     nodes += 1;
                     run.add("transitions", 1);
@@ -175,7 +176,6 @@ fn main() {
                         next.push(Rep { cfg: rep.cfg, hist: h, book: ch.out.book });
                     }
                 }
-                done_work += 1;
             }
         }
         let done_parents = total_parents;
